@@ -177,6 +177,19 @@ def triggers_of(program: dict, facts: dict[str, dict]) -> dict[str, list[str]]:
                 hit("D42", sid)
         if op == "union" and "join" in f.get("right_chain", {}).get("verbs", []):
             hit("D45", sid)
+        if op == "join":
+            # the same root cause seen from above: a join one of whose inputs contains a union, while the other input goes back
+            # to a source table that also occurs inside that union (the aliases created for the join do not reach into the
+            # union's right input)
+            from .campaign import ancestors as _anc45
+
+            by45 = {x["id"]: x for x in program["stmts"]}
+            la = set(_anc45(program, st["src"])) | {st["src"]}
+            ra = set(_anc45(program, st["right"])) | {st["right"]}
+            lsrc = {a for a in la if a in by45 and by45[a]["op"] == "source"}
+            rsrc = {a for a in ra if a in by45 and by45[a]["op"] == "source"}
+            if (lsrc & rsrc) and any(a in by45 and by45[a]["op"] == "union" for a in la | ra):
+                hit("D45", sid)
         if op in ("select", "drop", "mutate") and f.get("agg_in_scope") and not f.get("summarized_group"):
             hit("D48", sid)
         if op == "join" and st.get("how") == "full" and "join" in f.get("chain", {}).get("verbs", []):
